@@ -44,6 +44,7 @@ type ledgerFs struct {
 	logOps bool
 	// counters
 	opened, closed int
+	faultsApplied  int
 }
 
 func newLedgerFs(inner afero.Fs) *ledgerFs {
@@ -62,6 +63,7 @@ func (l *ledgerFs) step(op, path string) (int, string) {
 	if l.faults != nil {
 		if v, ok := l.faults.At[k]; ok {
 			f = v
+			l.faultsApplied++
 		}
 	}
 	if l.logOps {
@@ -121,6 +123,12 @@ func (l *ledgerFs) TakeOps() []fsOp {
 	o := l.ops
 	l.ops = nil
 	return o
+}
+
+func (l *ledgerFs) FaultsApplied() int {
+	l.mu.Lock()
+	defer l.mu.Unlock()
+	return l.faultsApplied
 }
 
 func (l *ledgerFs) OpCount() int {
